@@ -551,6 +551,14 @@ def coverage(done, tier):
     except Exception:
         pass
     never = [r for r in all_regions if regs.get(r, {}).get("runs_multi", 0) == 0]
+    why = {}
+    for r in never:
+        if "fft" in r.split(":")[1].split(".")[0] or "libfft_wrapper" in r:
+            why[r] = "needs FFTW (absent in the sandbox)"
+        elif any(k in r for k in ("_num.", "SDMXcontract_ao_to_bas_grid", "SDMXeval_loop", "add_lp1_term_onsite", "compute_mol_convs_single.", "compute_num_spline_contribs", "compute_spline_bas.", "contract_grad_terms_old", "evaluate_se_kernel_spin_v2")):
+            why[r] = "no caller in the shipped Python (dead code or GPAW-only numerical-basis path)"
+        else:
+            why[r] = "not reached by this run's workloads"
     teams = {k[5:]: v for k, v in tot.items() if k.startswith("team_")}
     strats = {k[9:]: v for k, v in tot.items() if k.startswith("strategy_")}
     return {
@@ -590,6 +598,7 @@ def coverage(done, tier):
         "regions_total": len(all_regions),
         "regions_run_multithreaded": len(all_regions) - len(never),
         "regions_never_multi": never,
+        "regions_never_multi_reason": why,
         "region_runs": regs,
         "bitwise_equal_fraction": (tot["elements_bitwise_equal"] / tot["elements_compared"]) if tot["elements_compared"] else None,
         "max_rel_diff_observed": maxrel,
